@@ -168,6 +168,7 @@ def body(chk):
                                     ['R fresh 1', 'R a %s' % n, 'R reinit_selects euler_3d', 'R b_untouched 1', 'R b euler_2d', 'R new_selected heateq_1d_steady_const'], 're-initialisation of a handle'))
         # ---- the two registries are independent: <scalar> operations never touch the other registry or its objects
         st, handles, objs = R.build(w, scalar, ['euler_1d'], symbolic=True)
+        st_alone = st.clone()
         sto = st
         S.api_init(w, sto, other, 'X0', 'euler_3d')        # one handle in the other precision as well
         sto.events, sto.writes = [], []
@@ -191,6 +192,38 @@ def body(chk):
                         replay=replay_script(chk, scalar, ['masa_init<double>("d","euler_1d"); masa_init<long double>("e","euler_3d"); masa_set_param<double>("L",2.5); masa_set_param<long double>("L",7.5L);',
                                                            'std::string a,b; masa_get_name<double>(&a); masa_get_name<long double>(&b); printf("\\nR %s %s %d %d\\n", a.c_str(), b.c_str(), masa_get_param<double>("L")==2.5, masa_get_param<long double>("L")==7.5L);'],
                                              ['R euler_1d euler_3d 1 1'], 'double/long double registries'))
+        # ---- ... and what <scalar> observers report does not depend on the other registry: every observer gives the same result (value, outputs,
+        #      printed lines, termination) with the other registry empty and with a 3-D solution selected there
+        def obs_name(ex):
+            sp = S.new_string(ex, '')
+            r = ex.call(S.api_fn(w, 'masa_get_name', scalar, 'std::string*'), [sp])
+            return (r, models.get_str(ex, sp).v)
+
+        def obs_dim(ex):
+            r_ = ex.st.new_region('alloca', 4, 'harness:int')
+            r = ex.call(S.api_fn(w, 'masa_get_dimension', scalar, 'int*'), [Ptr(r_.rid, 0)])
+            return (r, ex.st.mem.get((r_.rid, 0), (4, None))[1])
+        observers = [('masa_get_name', obs_name), ('masa_get_dimension', obs_dim),
+                     ('masa_sanity_check', lambda ex: ex.call(S.api_fn(w, 'masa_sanity_check', scalar, ''), [])),
+                     ('masa_get_param', lambda ex: ex.call(S.api_fn(w, 'masa_get_param', scalar, 'std::string'), [S.new_string(ex, 'L')])),
+                     ('masa_list_mms', lambda ex: ex.call(S.api_fn(w, 'masa_list_mms', scalar, ''), [])),
+                     ('masa_eval_exact_rho', lambda ex: ex.call(S.api_fn(w, 'masa_eval_exact_rho', scalar, scalar), [tm.sym('x')]))]
+        for oname, othunk in observers:
+            def summarise(paths, base):
+                out = []
+                for p in paths:
+                    couts = tuple(str(e[1]) for e in p['st'].events[len(base.events):] if e[0] == 'cout')
+                    out.append((repr(p['ret']), couts, repr(p['terminal']), repr(p['error']) if p['error'] is not None else None, tuple(sorted((c.id, b) for c, b in p['pc']))))
+                return sorted(out)
+            try:
+                ra = summarise(ex.explore(st_alone, othunk, 16), st_alone)
+                rb = summarise(ex.explore(sto, othunk, 16), sto)
+            except KeyError:
+                continue
+            chk.paths_clean('independence:<%s>:%s-reports-the-same-with-and-without-a-<%s>-solution' % (scalar, oname, other), [] if ra == rb else [tm.TRUE],
+                            key='independence:%s' % oname, family='independence', sample=dict(obligation=oname, alone=str(ra)[:300], with_other=str(rb)[:300]),
+                            replay=replay_script(chk, scalar, ['masa_init<%s>("own","euler_1d"); masa_init<%s>("oth","euler_3d"); int d_=0; std::string n_; masa_get_dimension<%s>(&d_); masa_get_name<%s>(&n_);' % (scalar, other, scalar, scalar),
+                                                               'printf("\\nR own %s %d\\n", n_.c_str(), d_);'], ['R own euler_1d 1'], '%s<%s> depends on the %s registry' % (oname, scalar, other)))
     # ---- bounded exploration of API SEQUENCES from the empty registry (concrete handles, symbolic parameter values):
     #      catches state that the one-step check's constructed pre-states do not contain (e.g. a cached 'last selected' name)
     depth = 4 if chk.tier == 'quick' else 5
@@ -299,9 +332,18 @@ def sequences(chk, w, scalar, depth):
         for o in sq:
             if o[0] == 'init':
                 # a (re-)initialised handle holds a fresh default instance: its first parameter is read back before the marker is written
-                lines.append('masa_init<Scalar>("%s","%s"); { Scalar f_ = masa_get_param<Scalar>("%s"); masa_init<Scalar>("fresh_%d","%s"); printf("\\nR fresh_after_init_%d %%d\\n", (int)(f_ == masa_get_param<Scalar>("%s"))); masa_select_mms<Scalar>("%s"); }'
-                             % (o[1], o[2], first_param[o[2]], len(fresh), o[2], len(fresh), first_param[o[2]], o[1]))
-                fresh.append('R fresh_after_init_%d 1' % len(fresh))
+                # (compared with the registered default taken from the catalogue object: no further API call that could disturb the registry state)
+                st_c, refsol = w.find(scalar, o[2])
+                a_ = refsol['params'][first_param[o[2]]][1]
+                dflt = st_c.mem[(a_.rid, a_.off)][1]
+                dflt = float(dflt.p) if isinstance(dflt, tm.T) and tm.isc(dflt) else None
+                if dflt is None:
+                    lines.append('masa_init<Scalar>("%s","%s");' % (o[1], o[2]))
+                else:
+                    lines.append('masa_init<Scalar>("%s","%s"); { long double f_ = (long double)masa_get_param<Scalar>("%s"); long double d_ = %rL; long double e_ = f_ > d_ ? f_ - d_ : d_ - f_; printf("\\nR fresh_after_init_%d %%d\\n", (int)(e_ <= 1e-12L * (1 + (d_ < 0 ? -d_ : d_)))); }'
+                                 % (o[1], o[2], first_param[o[2]], dflt, len(fresh)))
+                if dflt is not None:
+                    fresh.append('R fresh_after_init_%d 1' % len(fresh))
                 lines.append('masa_set_param<Scalar>("%s",(Scalar)%s);' % (first_param[o[2]], marker[o[1]]))
                 rsel, rval[o[1]], rname[o[1]] = o[1], marker[o[1]], o[2]
             elif o[0] == 'select':
